@@ -899,7 +899,9 @@ impl Frame {
                 )?;
             }
         }
-        Ok(Self::from_parts(header, subframes))
+        let ret = Self::from_parts(header, subframes);
+        ret.verify()?;
+        Ok(ret)
     }
 
     /// Constructs Frame from [`FrameHeader`] and [`SubFrame`]s.
@@ -2077,6 +2079,7 @@ impl FixedLpc {
             "must be equal to the warm-up length of `residual`"
         )?;
         let ret = Self::from_parts(warm_up, residual, bits_per_sample as u8);
+        ret.verify()?;
         Ok(ret)
     }
 
